@@ -23,7 +23,7 @@ theorem lprim_keepsId {c c' : Cell} {lab : Lab} (hk : KeepsId lab) (hp : LPrim l
   intro a' ha'
   obtain ⟨a, ha, hcase⟩ := lprim_identity hp y a' ha'
   refine ⟨a, ha, ?_⟩
-  rcases hcase with e | e | ⟨k, g, grp, e1, _, _, _⟩
+  rcases hcase with e | e | ⟨k, g, grp, b, hl, e1, _, _, _⟩
   · exact e
   · -- identity dropped: only release / forgetIdentity do that... unless it was none already
     cases hp with
@@ -86,65 +86,7 @@ theorem lprim_keepsId {c c' : Cell} {lab : Lab} (hk : KeepsId lab) (hp : LPrim l
       simp only [Option.map_some, Option.some.injEq] at ha'
       rw [← ha']
   · -- identity acquired: only `acquire` does that
-    cases hp with
-    | acquire h => simp only [KeepsId] at hk
-    | release h => simp only [KeepsId] at hk
-    | forgetIdentity => simp only [KeepsId] at hk
-    | put h =>
-      rcases serverPut_shape h with ⟨_, e2⟩ | ⟨_, a1, s1, anc, ha1, _, _, _, _, _, happs, _⟩
-      · subst e2; rw [ha] at ha'; cases ha'; rfl
-      · rw [app?_of_apps happs, ha] at ha'
-        simp only [Option.map_some, Option.some.injEq] at ha'
-        rw [← ha']
-        split
-        · rename_i e3
-          have hy : y = a1.id := by rw [← app?_id ha, e3]; rfl
-          have : c.app? a1.id = some a1 := by rw [app?_id ha1]; exact ha1
-          rw [← hy, ha] at this; cases this; rfl
-        · rfl
-    | remove h =>
-      obtain ⟨a1, s1, ha1, _, _, happs, _⟩ := serverRemove_shape h
-      rw [app?_of_apps happs, ha] at ha'
-      simp only [Option.map_some, Option.some.injEq] at ha'
-      rw [← ha']
-      split
-      · rename_i e3
-        have hy : y = a1.id := by rw [← app?_id ha, e3]; rfl
-        have : c.app? a1.id = some a1 := by rw [app?_id ha1]; exact ha1
-        rw [← hy, ha] at this; cases this; rfl
-      · rfl
-    | @appMeta _ a1 a1' ha1 hid _ hidn =>
-      rcases setApp_cases ha ha' with e2 | e2
-      · have hy : y = a1.id := by
-          have h1 := app?_id ha'; rw [e2, hid] at h1; exact h1.symm
-        subst hy; rw [ha] at ha1; cases ha1; rw [e2]; exact hidn
-      · rw [e2]
-    | @setRenew _ a1 b ha1 =>
-      rcases setApp_cases ha ha' with e2 | e2
-      · have hy : y = a1.id := by
-          have h1 := app?_id ha'; rw [e2] at h1; exact h1.symm
-        subst hy; rw [ha] at ha1; cases ha1; rw [e2]
-      · rw [e2]
-    | @ghost _ a1 v ha1 =>
-      rcases setApp_cases ha ha' with e2 | e2
-      · have hy : y = a1.id := by
-          have h1 := app?_id ha'; rw [e2] at h1; exact h1.symm
-        subst hy; rw [ha] at ha1; cases ha1; rw [e2]
-      · rw [e2]
-    | @dropDangling _ a1 sid ha1 =>
-      rcases setApp_cases ha ha' with e2 | e2
-      · have hy : y = a1.id := by
-          have h1 := app?_id ha'; rw [e2] at h1; exact h1.symm
-        subst hy; rw [ha] at ha1; cases ha1; rw [e2]
-      · rw [e2]
-    | tree => have : c.app? y = some a' := ha'; rw [ha] at this; cases this; rfl
-    | clearEv =>
-      have : ({ c with apps := c.apps.map (fun a => { a with evFrom := none }) } : Cell).app? y =
-          (c.app? y).map (fun a => { a with evFrom := none }) := by
-        unfold Cell.app?; exact find?_map_id c.apps (fun a : App => { a with evFrom := none }) (fun _ => rfl) y
-      rw [this, ha] at ha'
-      simp only [Option.map_some, Option.some.injEq] at ha'
-      rw [← ha']
+    subst hl; simp only [KeepsId] at hk
 
 /-- Along a chain of identity-keeping labels every app keeps its identity and its group. -/
 theorem keepsId_chain {P : Cell → Lab → Prop} (hP : ∀ c lab, P c lab → KeepsId lab) {c c' : Cell}
@@ -314,5 +256,175 @@ theorem restoreEvicted_post {c c' : Cell} {aid : Nat} {done : Bool} (h : restore
             rw [← ha']; split <;> rfl
           rw [hsv', hsv3]; exact hsv1
   · simp only [pure_ok, Prod.mk.injEq] at h; obtain ⟨_, hb⟩ := h; cases hb
+
+end TmVerif.Sched
+
+namespace TmVerif.Sched
+
+theorem hasIdentity_congr {a b : App} (hg : a.group = b.group) (hi : a.identity = b.identity) :
+    a.hasIdentity = b.hasIdentity := by unfold App.hasIdentity; rw [hg, hi]
+
+theorem settled_of_release {c c' : Cell} {aid : Nat} (h : releaseIdentity c aid = .ok c')
+    (hnone : ∀ a, c.app? aid = some a → a.server = none) : Settled c' aid := by
+  intro a' ha'
+  obtain ⟨a, ha, e1, _, e3⟩ := release_post h a' ha'
+  have hs : a'.server = none := by rw [e1]; exact hnone a ha
+  exact ⟨fun hsome => (by rw [hs] at hsome; cases hsome), fun _ hg => e3 hg⟩
+
+theorem unplacedBranch_settled {c c' : Cell} {a : App} (ha : c.app? a.id = some a)
+    (h : unplacedBranch c a = .ok c') : Settled c' a.id := by
+  simp only [unplacedBranch] at h
+  split at h
+  · split at h
+    · simp only [throw_bind, throw_ne_ok] at h
+    · split at h
+      · simp only [throw_bind, throw_ne_ok] at h
+      · simp only [bind_ok] at h
+        obtain ⟨c1, h1, h2⟩ := h
+        refine settled_of_release h2 ?_
+        intro a1 ha1
+        obtain ⟨a0, _, ha0⟩ := serverRemove_app_self h1
+        rw [ha0] at ha1; cases ha1; rfl
+  · rename_i hsv
+    simp only [bind_ok, pure_ok] at h
+    obtain ⟨c1, rfl, h2⟩ := h
+    exact settled_of_release h2 (fun a1 ha1 => by rw [ha] at ha1; cases ha1; exact hsv)
+
+/-- `tryPlace` without a pending renewal: the app ends placed with its identity, or unplaced and
+    released. -/
+theorem tryPlace_settled {revq : List Nat} {st st' : PState} {a0 : App} {aid : Nat}
+    (hid : a0.id = aid) (hbl : a0.blacklisted = false)
+    (hhas : ∀ a, st.cell.app? aid = some a → a.hasIdentity = true)
+    (h : tryPlace revq st aid none = .ok st') : Settled st'.cell aid := by
+  simp only [tryPlace, bind_ok, orAbort_ok] at h
+  obtain ⟨a2, ha2, ⟨c3, placed⟩, hput, c4, hev, a4, ha4, h⟩ := h
+  have r1 := cellPut_lreach2 (after := revq.takeWhile (· ≠ aid)) hid hbl hput
+  have r2 : LReach (fun c lab => PlaceOk a0 false (revq.takeWhile (· ≠ aid)) c lab ∧ NoIdLab lab) c3 c4 := by
+    split at hev
+    · simp only [pure_ok] at hev; subst hev; exact .refl
+    · exact evictLoop_lreach2 hid hbl _ _ _ hev
+  have r12 := r1.trans r2
+  obtain ⟨ab, hab, e1, e2⟩ := keepsId_chain (fun _ _ h => noIdLab_keeps h.2) r12 aid a4 ha4
+  have hhas4 : a4.hasIdentity = true := by rw [hasIdentity_congr e2 e1]; exact hhas ab hab
+  split at h
+  · simp only [pure_ok] at h; subst h
+    intro a' ha'
+    rw [ha4] at ha'; cases ha'
+    exact ⟨fun _ => hhas4, fun hn => by rename_i hs; rw [hn] at hs; cases hs⟩
+  · rename_i hns
+    simp only [bind_ok, pure_ok] at h
+    obtain ⟨c5, hrel, rfl⟩ := h
+    refine settled_of_release hrel ?_
+    intro a1 ha1
+    rw [ha4] at ha1; cases ha1
+    cases hsv : a4.server with
+    | none => rfl
+    | some x => simp [hsv] at hns
+
+theorem renewStep_noop {c c' : Cell} {a : App} {r} (hnr : a.renew = false) (h : renewStep c a = .ok (c', r)) :
+    c' = c ∧ r = none := by
+  simp only [renewStep, hnr, Bool.false_eq_true, ↓reduceIte, pure_ok, Prod.mk.injEq] at h
+  exact ⟨h.1.symm, h.2.symm⟩
+
+/-- After its turn the app of a queue entry is settled (no renewal pending; a blacklisted app is
+    assumed settled already — the pre-passes see to that). -/
+theorem placeOne_settled {revq : List Nat} {st st' : PState} {q : Nat × Bool} {a0 : App}
+    (ha0 : st.cell.app? q.1 = some a0) (hnr : a0.renew = false)
+    (hblset : a0.blacklisted = true → SettledRec a0)
+    (h : placeOne revq st q = .ok st') : Settled st'.cell q.1 := by
+  simp only [placeOne, bind_ok, orAbort_ok] at h
+  obtain ⟨a, ha, h⟩ := h
+  rw [ha0] at ha; cases ha
+  have hid := app?_id ha0
+  split at h
+  · rename_i hbl
+    simp only [pure_ok] at h; subst h
+    intro a' ha'; rw [ha0] at ha'; cases ha'; exact hblset hbl
+  · rename_i hbl
+    have hbl' : a0.blacklisted = false := by simpa using hbl
+    split at h
+    · simp only [bind_ok, pure_ok] at h
+      obtain ⟨c2, h2, rfl⟩ := h
+      have := unplacedBranch_settled (by rw [hid]; exact ha0) h2
+      rw [hid] at this; exact this
+    · simp only [bind_ok, orAbort_ok] at h
+      obtain ⟨⟨c1, restore⟩, hrn, a1, ha1, h⟩ := h
+      obtain ⟨hc1, hr1⟩ := renewStep_noop hnr hrn
+      subst hc1; subst hr1
+      rw [ha0] at ha1; cases ha1
+      have hid1 : ({ a0 with renew := false } : App).id = q.1 := hid
+      have hself : (st.cell.setApp { a0 with renew := false }).app? q.1 = some { a0 with renew := false } := by
+        rw [← hid1]; exact app?_setApp_self (a := a0) (by rw [hid1]; exact ha0)
+      split at h
+      · rename_i sid hsv
+        split at h
+        · simp only [throw_ne_ok] at h
+        · split at h
+          · simp only [throw_ne_ok] at h
+          · rename_i hhas
+            simp only [pure_ok] at h; subst h
+            intro a' ha'
+            rw [hself] at ha'; cases ha'
+            refine ⟨fun _ => ?_, fun hn => ?_⟩
+            · have : a0.hasIdentity = true := by simpa using hhas
+              exact this
+            · have : a0.server = none := hn
+              rw [hsv] at this; cases this
+      · rename_i hsvn
+        simp only [bind_ok] at h
+        obtain ⟨⟨c2, got, ch⟩, hacq, h⟩ := h
+        -- after acquire: still unplaced
+        have hacq_post := acquire_post hacq
+        have hnone2 : ∀ a, c2.app? q.1 = some a → a.server = none := by
+          intro a ha
+          obtain ⟨b, hb, e1, _⟩ := hacq_post a ha
+          rw [hself] at hb; cases hb; rw [e1]; exact hsvn
+        split at h
+        · rename_i hgot
+          have hgot' : got = false := by simpa using hgot
+          simp only [pure_ok] at h; subst h
+          intro a' ha'
+          obtain ⟨b, _, _, _, _, hf⟩ := hacq_post a' ha'
+          obtain ⟨hg, hi⟩ := hf hgot'
+          exact ⟨fun hs => (by rw [hnone2 a' ha'] at hs; cases hs), fun _ _ => hi⟩
+        · rename_i hgot
+          have hgot' : got = true := by simpa using hgot
+          have hhas2 : ∀ a, c2.app? q.1 = some a → a.hasIdentity = true := by
+            intro a ha
+            obtain ⟨b, _, _, _, ht, _⟩ := hacq_post a ha
+            exact ht hgot'
+          -- afterAcquire
+          simp only [afterAcquire, bind_ok] at h
+          obtain ⟨⟨c3, done⟩, hre, h⟩ := h
+          have hre_post := restoreEvicted_post hre
+          have hhas3 : ∀ a, c3.app? q.1 = some a → a.hasIdentity = true := by
+            intro a ha
+            obtain ⟨b, hb, e1, e2, _⟩ := hre_post a ha
+            rw [hasIdentity_congr e2 e1]; exact hhas2 b hb
+          split at h
+          · rename_i hdone
+            simp only [pure_ok] at h; subst h
+            intro a' ha'
+            obtain ⟨b, hb, _, _, hsome⟩ := hre_post a' ha'
+            have hs := hsome hdone
+            exact ⟨fun _ => hhas3 a' ha', fun hn => by rw [hn] at hs; cases hs⟩
+          · rename_i hdone
+            have hdone' : done = false := by simpa using hdone
+            subst hdone'
+            have hnone3 : ∀ a, c3.app? q.1 = some a → a.server = none := by
+              intro a ha
+              obtain ⟨b, hb, e⟩ := restoreEvicted_false_server hre a ha
+              rw [e]; exact hnone2 b hb
+            simp only [bind_ok, orAbort_ok] at h
+            obtain ⟨a2, ha2, h⟩ := h
+            split at h
+            · simp only [bind_ok, pure_ok] at h
+              obtain ⟨c4, hrel, rfl⟩ := h
+              exact settled_of_release hrel hnone3
+            · split at h
+              · simp only [bind_ok, pure_ok] at h
+                obtain ⟨c4, hrel, rfl⟩ := h
+                exact settled_of_release hrel hnone3
+              · exact tryPlace_settled hid hbl' hhas3 h
 
 end TmVerif.Sched
